@@ -194,6 +194,45 @@ def bind_task(task):
         return None
 
 
+def check_result_structure(I, run):
+    """C04: shape of the result object only (independent of every other oracle).  Returns the unpadded labels."""
+    res = run.result
+    W, K, N = run.W, run.K, run.N
+    NW = N * W
+    joint = run.joint
+    series = run.data if isinstance(run.data, list) else [run.data]
+    front = (W - 1) // 2
+    back = (W - 1) - front
+    if joint:
+        lab_lists = res.point_labels
+        ok_outer = isinstance(lab_lists, (list, tuple)) and len(lab_lists) == len(series)
+        if not ok_outer:
+            I.v("C04", "joint result has %r label lists for %d series" % (len(lab_lists) if hasattr(lab_lists, "__len__") else None, len(series)))
+            lab_lists = []
+    else:
+        lab_lists = [res.point_labels]
+    unp = []
+    for si, (L, s) in enumerate(zip(lab_lists, series)):
+        T = np.asarray(s).shape[0]
+        L = list(L)
+        if len(L) != T:
+            I.v("C04", "series %d: %d labels for %d rows" % (si, len(L), T))
+            continue
+        if any(l != -1 for l in L[:front]) or any(l != -1 for l in L[T - back:]):
+            I.v("C04", "series %d: the first %d / last %d labels are not all -1 (W=%d)" % (si, front, back, W))
+        mid = L[front:T - back]
+        if any(not (isinstance(l, numbers.Integral) and 0 <= l < K) for l in mid):
+            I.v("C04", "series %d: a label inside the margin is not an integer in [0,%d) (W=%d, margin %d/%d)" % (si, K, W, front, back))
+        unp.extend(mid)
+    mrfs = res.markov_random_fields
+    if len(mrfs) != K or any(np.shape(mm) != (NW, NW) for mm in mrfs):
+        I.v("C04", "result has %d MRFs of shapes %s, expected %d of (%d,%d)" % (len(mrfs), [np.shape(mm) for mm in mrfs][:3], K, NW, NW))
+    if res.num_clusters != K or res.window_size != W:
+        I.v("C04", "result echoes K=%r W=%r, caller passed K=%d W=%d" % (res.num_clusters, res.window_size, K, W))
+    I.c("results_checked")
+    return unp, mrfs
+
+
 def evaluate(run, want=None):
     """All oracles over one completed traced run.  Returns Issues."""
     I = Issues()
@@ -222,6 +261,8 @@ def evaluate(run, want=None):
         if seen.shape != X.shape or not np.array_equal(stack.bits(seen), stack.bits(X)):
             I.v("C07" if joint and nseries > 1 else "C10", "the stacked array handed to the main loop differs from the per-series window stacking of the input")
             I.v("C10", "stacked array differs from the reference stacking")
+            if run.result is not None:
+                check_result_structure(I, run)
             return I          # every other oracle is phrased over the reference stacking
         I.c("stacked_arrays_checked")
 
@@ -514,37 +555,7 @@ def evaluate(run, want=None):
     if res is None:
         return I
 
-    # ---- C04 result structure
-    series = run.data if isinstance(run.data, list) else [run.data]
-    front = (W - 1) // 2
-    back = (W - 1) - front
-    if joint:
-        lab_lists = res.point_labels
-        ok_outer = isinstance(lab_lists, (list, tuple)) and len(lab_lists) == len(series)
-        if not ok_outer:
-            I.v("C04", "joint result has %r label lists for %d series" % (len(lab_lists) if hasattr(lab_lists, "__len__") else None, len(series)))
-            lab_lists = []
-    else:
-        lab_lists = [res.point_labels]
-    unp = []
-    for si, (L, s) in enumerate(zip(lab_lists, series)):
-        T = np.asarray(s).shape[0]
-        L = list(L)
-        if len(L) != T:
-            I.v("C04", "series %d: %d labels for %d rows" % (si, len(L), T))
-            continue
-        if any(l != -1 for l in L[:front]) or any(l != -1 for l in L[T - back:]):
-            I.v("C04", "series %d: the first %d / last %d labels are not all -1 (W=%d)" % (si, front, back, W))
-        mid = L[front:T - back]
-        if any(not (isinstance(l, numbers.Integral) and 0 <= l < K) for l in mid):
-            I.v("C04", "series %d: a label inside the margin is not an integer in [0,%d) (W=%d, margin %d/%d)" % (si, K, W, front, back))
-        unp.extend(mid)
-    mrfs = res.markov_random_fields
-    if len(mrfs) != K or any(np.shape(mm) != (NW, NW) for mm in mrfs):
-        I.v("C04", "result has %d MRFs of shapes %s, expected %d of (%d,%d)" % (len(mrfs), [np.shape(mm) for mm in mrfs][:3], K, NW, NW))
-    if res.num_clusters != K or res.window_size != W:
-        I.v("C04", "result echoes K=%r W=%r, caller passed K=%d W=%d" % (res.num_clusters, res.window_size, K, W))
-    I.c("results_checked")
+    unp, mrfs = check_result_structure(I, run)
     ok_labels = len(unp) == Tp and all(isinstance(l, numbers.Integral) and 0 <= l < K for l in unp)
     labs = [int(l) for l in unp] if ok_labels else None
     if labs is not None and labseq:
